@@ -119,3 +119,76 @@ def random_progs(rng, n, sizes=SIZES_SMALL, p_undef=0.08, nf_share=0.5):
         first = (1, True, 1) if rng.random() < nf_share else None
         out.append(prog_text(random_table(rng, S, C, p_undef, first)))
     return out
+
+
+def tree_leaves(rng, n, sizes=((3, 2), (2, 3), (4, 2), (2, 4)), per_tree=4000, lim=100):
+    """programs produced by the REAL tree generator (tree::build_tree through the harness command `leaves`),
+    both trees (halt 0/1) of each size, evenly sampled; these are the programs the deciders are run on in practice
+    (holdouts of the pipeline), where e.g. closed-set provability is not monotone in the window size."""
+    from lib import core
+    lv = core.run_bbh([f'l{S}{C}{h}|leaves|{S},{C}|{h}|{lim}|{per_tree}' for S, C in sizes for h in (0, 1)])
+    pool, seen = [], set()
+    for k in sorted(lv):
+        a = lv[k]
+        if a.count('|') != 1:
+            continue
+        for p in a.split('|')[1].split(';'):
+            if p and p not in seen:
+                seen.add(p)
+                pool.append(p)
+    rng.shuffle(pool)
+    return pool[:n]
+
+
+def sibling_sequence(rng, S, C, k, p_undef=0.1, fix_first=False):
+    """k program texts over one S x C table, each obtained from the previous one by changing ONE slot (the first
+    slots of the table preferred, sometimes to `undefined` and back): the input shape that exposes state kept
+    between calls (memo tables, per-thread caches keyed by a lossy fingerprint of the program, reused buffers)."""
+    t = random_table(rng, S, C, p_undef, first=(1, True, 1) if (fix_first or rng.random() < 0.5) else None)
+    opts = all_instrs(S, C)
+    out = [prog_text(t)]
+    for _ in range(k - 1):
+        t = [list(r) for r in t]
+        n = S * C
+        i = rng.randrange(min(3, n)) if rng.random() < 0.6 else rng.randrange(n)
+        if fix_first and i == 0:
+            i = 1
+        r, c = divmod(i, C)
+        new = None if (rng.random() < 0.25 and (r, c) != (0, 0)) else rng.choice(opts)
+        if new == t[r][c]:
+            new = rng.choice(opts)
+        t[r][c] = new
+        out.append(prog_text(t))
+    return out
+
+
+HIST_SIZES = [(3, 3), (5, 2), (2, 5), (4, 3), (6, 2), (2, 6), (3, 2), (2, 3), (4, 2), (2, 4), (2, 2)]
+
+
+def history_cases(rng, nseq, mk_line, k=6, sizes=HIST_SIZES, nf=False):
+    """[(id, line)] : nseq sibling sequences (see sibling_sequence) of k programs each; mk_line(rng, S, C) returns a
+    function prog -> command text that is the SAME question for all programs of one sequence.  To be run on ONE thread."""
+    out = []
+    for i in range(nseq):
+        S, C = rng.choice(sizes)
+        f = mk_line(rng, S, C)
+        seq = sibling_sequence(rng, S, C, k, fix_first=nf)
+        for j, p in enumerate(seq):
+            out.append((f'h{i}_{j}', f(p)))
+    return out
+
+
+def history_of(hcs):
+    """id -> the lines asked before it in its sequence"""
+    hist = {}
+    for i, (cid, line) in enumerate(hcs):
+        j = int(cid.split('_')[1])
+        hist[cid] = [l for _, l in hcs[i - j:i]]
+    return hist
+
+
+def hist_note(why, hist):
+    """append the call history of a history case to the explanation of a failure"""
+    if not hist:
+        return why
+    return why + ' — asked on ONE thread after these calls, in this order: ' + ' ; '.join(hist)
